@@ -460,17 +460,25 @@ def known_findings(prop):
     return [e for e in json.load(open(p)).get("findings", []) if e.get("property") == prop]
 
 
+def out_dir(kind):
+    """evidence/ and replays/ of /verif describe /repo itself; a run against a scratch checkout (SV_REPO) writes
+    its own copies under build/ so that it never overwrites them."""
+    if REPO == "/repo":
+        return os.path.join(ROOT, kind)
+    return os.path.join(BUILD, "%s-%s" % (kind, hashlib.sha256(REPO.encode()).hexdigest()[:8]))
+
+
 def write_evidence(ctx, level, coverage, assumptions, violations):
-    os.makedirs(os.path.join(ROOT, "evidence"), exist_ok=True)
+    os.makedirs(out_dir("evidence"), exist_ok=True)
     ev = {"property_id": ctx.prop, "tier": ctx.tier, "seed": ctx.seed, "level": level, "coverage": coverage,
           "assumptions": assumptions, "wall_s": round(time.time() - ctx.t0, 2), "violations": violations}
-    with open(os.path.join(ROOT, "evidence", ctx.prop + ".json"), "w") as f:
+    with open(os.path.join(out_dir("evidence"), ctx.prop + ".json"), "w") as f:
         json.dump(ev, f, indent=1, sort_keys=True, default=str)
     return ev
 
 
 def write_replay(ctx, name, obj):
-    d = os.path.join(ROOT, "replays")
+    d = out_dir("replays")
     os.makedirs(d, exist_ok=True)
     p = os.path.join(d, "%s_%s.json" % (ctx.prop, name))
     with open(p, "w") as f:
